@@ -409,14 +409,13 @@ func c06Exec(scAny any, c *simcheck.Ctx) *simcheck.Violation {
 	// the network back, behaves as before (nothing half-fetched may have entered the cache).
 	if nt := c.Tapes.Get("network"); len(h.p.Exts) > 0 && nt.Intn(2) == 0 {
 		h.w.wipeCache()
-		h.w.netFailAt = 1 + nt.Intn(14)
+		failAt := 1 + nt.Intn(14)
 		h.w.events = nil
-		res := h.build(7, &opSpec{Op: "load-only"}, h.pc, nil)
+		res := h.build(7, &opSpec{Op: "load-only", NetFailAt: failAt}, h.pc, nil)
 		faults := h.w.netFaults
-		h.w.netFailAt = 0
 		if v := procFailure(res); v != nil {
 			if v.Class != simcheck.EngineError {
-				v.Msg = fmt.Sprintf("loading while repository operation %d fails: %s", h.w.netFailAt, v.Msg)
+				v.Msg = fmt.Sprintf("loading while repository operation %d fails: %s", failAt, v.Msg)
 			}
 			return v
 		}
